@@ -21,14 +21,14 @@ StateRec ==
                     exec |-> last'.exec, twice |-> last'.twice, ok |-> last'.ok, failed |-> last'.failed, skipped |-> last'.skipped,
                     dec |-> last'.dec, why |-> last'.why, loaded |-> last'.loaded,
                     cleanws |-> [t \in Targets |-> S(last'.cleanws[t])], cleanok |-> last'.cleanok]
-              ELSE [kind |-> last'.kind, t |-> IF last'.kind \in {"platform", "relocate"} THEN "" ELSE last'.t] ]
+              ELSE [kind |-> last'.kind, t |-> IF last'.kind \in {"platform", "relocate", "corruptresults"} THEN "" ELSE last'.t] ]
 
 Header ==
   [ targets |-> Targets, order |-> Order, decldeps |-> DeclDeps, aliases |-> Aliases, outkind |-> OutKind,
     infiles |-> InFiles, globt |-> GlobT, checkt |-> CheckT, alias0 |-> hist[1].alias0, files0 |-> hist[1].files0, maxsteps |-> MaxSteps ]
 
-KindRank(k) == CASE k = "edit" -> 1 [] k = "taint" -> 2 [] k = "breakext" -> 3 [] k = "dropblob" -> 4 [] k = "perturb" -> 5
-                 [] k = "platform" -> 6 [] k = "relocate" -> 7 [] OTHER -> 0
+KindRank(k) == CASE k = "edit" -> 1 [] k = "taint" -> 2 [] k = "breakext" -> 3 [] k = "corruptresults" -> 4 [] k = "dropblob" -> 5 [] k = "perturb" -> 6
+                 [] k = "platform" -> 7 [] k = "relocate" -> 8 [] OTHER -> 0
 Pos(t) == IF \E i \in 1..Len(Order) : Order[i] = t THEN CHOOSE i \in 1..Len(Order) : Order[i] = t ELSE 0
 HasT(l) == l.kind \in {"edit", "taint", "perturb", "breakext", "dropblob"}
 CanonOK ==
